@@ -182,13 +182,16 @@ def chain_oracle(node):
     if not (isinstance(node, tuple) and len(node) == 3 and node[0] == 'chain'):
         return ('value', node)
     vals = []
+    lenient = False
     for sub in node[1]:
         o = chain_oracle(sub)
-        if o[0] != 'value':
+        if o[0] == 'error':
             return ('error',)
+        if o[0] == 'either':          # a parenthesised sub-chain for which refusal and the left-to-right value are both acceptable
+            lenient = True
         vals.append(o[1])
     is_vec = lambda v: is_arr(v) and v.ndim == 1
-    many_vectors = sum(1 for v in vals if is_vec(v)) >= 3
+    many_vectors = lenient or sum(1 for v in vals if is_vec(v)) >= 3
     acc = vals[0]
     vv = False
     for op, v in zip(node[2], vals[1:]):
@@ -199,6 +202,7 @@ def chain_oracle(node):
                 vv = True
         o = oracle(op, acc, v)
         if o[0] != 'value':
+            # (with a lenient sub-chain the library may already have refused: an error is acceptable either way)
             return ('error',)
         acc = o[1]
     return ('either', acc) if many_vectors else ('value', acc)
